@@ -71,10 +71,7 @@ pub fn g1x_case(x: u64) -> Result<u32, Bad> {
             got.is_ok(),
             if carries { "" } else { "not " }
         );
-        if let (Ok(g), Some(w)) = (got, want) {
-            let a = crate::api::alpha::<G1>(&g);
-            ensure!(a == w, "compressed-value", "G1::from_compressed({:02x}||{}) decodes to {:x?}, expected {:x?}", pre, x, a, w);
-        }
+        // which point comes back (parity convention, coordinates) is C08/C10's business; here only success
     }
     Ok(2)
 }
@@ -83,10 +80,7 @@ fn comp_case<G: GroupApi>(d: &N) -> Result<u32, Bad> {
     let b = G::ref_encode(&p, Fmt::Compressed).expect("non-identity");
     let got = lib("from_compressed", || G::decode(Fmt::Compressed, &b))?;
     match got {
-        Ok(g) => {
-            let a = crate::api::alpha::<G>(&g);
-            ensure!(a == p, "compressed-value", "{} from_compressed of {}*G decodes to another point", G::NAME, d);
-        }
+        Ok(_) => {}
         Err(e) => return mccore::bad("compressed-accept", format!("{} from_compressed rejects the valid encoding of {:x}*G: {}", G::NAME, d, e)),
     }
     Ok(1)
